@@ -162,7 +162,7 @@ def check(ctx):
 
     # ---- C04.c every end_* clears every flag its start_* set (shared with C03.a / C03.b) ----
     import c03
-    n = core.reuse(ctx, c03, ["C03.a", "C03.b"], "C04.c")
+    n = core.reuse(ctx, c03, ["C03.a", "C03.b", "C03.h"], "C04.c")
     ctx.floor("C04.c", n, 20, "shared C03.a/C03.b obligations")
 
     # ---- C04.g nothing else runs between the start of the event window and the reacting system's body ----
